@@ -1,5 +1,6 @@
 import Proofs.RdataTextName
 import Proofs.RdataTextB64
+import Proofs.RdataTextIP6e
 /-! Records: fields joined by spaces, tails, and the schema-generic round trip through `dns.rdata.from_text` (C05). -/
 namespace Model
 
@@ -12,8 +13,16 @@ def FieldOk (st : Style) (env : PEnv) : FK → FV → Prop
   | .cstr maxTok maxBytes true, .b s =>
     (∀ c ∈ s, c < 128) ∧ (∀ m, maxTok = some m → s.length ≤ m) ∧ (∀ m, maxBytes = some m → s.length ≤ m)
   | .ip4, .b a => ∃ x0 x1 x2 x3, a = [x0, x1, x2, x3] ∧ x0 < 256 ∧ x1 < 256 ∧ x2 < 256 ∧ x3 < 256
+  | .ip6, .b a => a.length = 16 ∧ ∀ x ∈ a, x < 256
   | .salt, .b s => (∀ x ∈ s, x < 256) ∧ s.length ≤ 255
   | _, _ => False
+
+theorem field_ip6 (st : Style) (env : PEnv) (a : Bytes) (hlen : a.length = 16) (ha : ∀ x ∈ a, x < 256) :
+    ∃ text, FieldRT st env .ip6 (.b a) text ⟨.ident, text⟩ := by
+  obtain ⟨t, ht, hat⟩ := ip6_roundtrip a hlen ha
+  obtain ⟨hpl, hne⟩ := ip6Ntoa_plain a hlen ha t ht
+  refine ⟨t, by simp [printField, ht], lexes_plain t hne hpl, ?_, notHash_plain t hpl⟩
+  simp [parseField, unescapeCP_plain_all t hpl, hat]
 
 theorem field_rt (st : Style) (env : PEnv) (k : FK) (v : FV) (h : FieldOk st env k v) :
     ∃ text tok, FieldRT st env k v text tok := by
@@ -29,6 +38,9 @@ theorem field_rt (st : Style) (env : PEnv) (k : FK) (v : FV) (h : FieldOk st env
   case ip4.b a =>
     obtain ⟨x0, x1, x2, x3, rfl, h0, h1, h2, h3⟩ := h
     obtain ⟨t, ht⟩ := field_ip4 st env x0 x1 x2 x3 h0 h1 h2 h3
+    exact ⟨_, _, ht⟩
+  case ip6.b a =>
+    obtain ⟨t, ht⟩ := field_ip6 st env a h.1 h.2
     exact ⟨_, _, ht⟩
   case salt.b s =>
     obtain ⟨t, ht⟩ := field_salt st env s h.1 h.2
